@@ -119,6 +119,25 @@ def guarded_index(body, flow, fln, bi, t):
     return None
 
 
+def guarded_bounds(body, flow, fln, bi, t):
+    """the MIR bounds assert of a slice / array index `s[idx]` (ops = [len, idx]) under the same dominating `idx < s.len()` test that
+    guarded_index recognises for Vec indexing."""
+    if len(t.get("ops") or []) < 2:
+        return None
+    lp = op_place(t["ops"][0])
+    if lp is None:
+        return None
+    for d in body.defs().get(lp["l"], []):
+        if d[1] == "term":
+            continue
+        rv = d[2]["rv"]
+        if rv["k"] == "un" and rv.get("op") == "PtrMetadata" and rv.get("x"):
+            return guarded_index(body, flow, fln, bi, {"args": [rv["x"], t["ops"][1]]})
+        if rv["k"] in ("len",) and rv.get("p"):
+            return guarded_index(body, flow, fln, bi, {"args": [{"c": "copy", "p": rv["p"]}, t["ops"][1]]})
+    return None
+
+
 def summaries(F, reach, roots):
     """two-pass context: return summaries of local callees and parameter ranges joined over all call sites inside the reach set"""
     from qvlib.intervals import join, return_summary
@@ -280,7 +299,10 @@ def collect_sinks(F, key, summ=None, params=None):
             fact = iv.assert_facts.get(bi)
             ok = fact and fact[1]
             detail = {"ops": [list(o) if o else None for o in (fact[2] if fact else [])]}
-            sinks.append((msg, body.loc(bi), "interval analysis: operands %s cannot trip it" % detail["ops"] if ok else None, dict(detail, inl=blk.get("inl"))))
+            why_a = "interval analysis: operands %s cannot trip it" % detail["ops"] if ok else None
+            if why_a is None and msg == "bounds":
+                why_a = guarded_bounds(body, flow, fln, bi, t)
+            sinks.append((msg, body.loc(bi), why_a, dict(detail, inl=blk.get("inl"))))
         elif t["k"] == "call":
             c = t.get("callee") or ""
             m = c.split("::")[-1]
